@@ -580,7 +580,7 @@ func parseContractFile(path, pkg string) (*ContractFile, error) {
 			}
 		}
 		switch cl.Kind {
-		case "requires", "ensures", "panics_iff", "panics_if", "on_panic", "invariant", "decreases", "crash_invariant":
+		case "requires", "ensures", "panics_iff", "panics_if", "panics_only_if", "on_panic", "invariant", "decreases", "crash_invariant":
 			e, err := parseSpecExpr(rest)
 			if err != nil {
 				return nil, fail(l.no, "%v", err)
